@@ -570,3 +570,62 @@ impl DecodeAttributeValue for UserName {
 }
 } // mod vx_user_name
 pub use vx_user_name::UserName;
+
+// ---------------------------------------------------------------- nonce_cookie.rs (RFC 8489 9.2: "obMatJos2" + 4 base64 characters of security feature bits)
+// third-party shims (trusted): enumflags2::BitFlags, base64 engine, str::starts_with
+#[verifier::external_body]
+#[verifier::reject_recursive_types(T)]
+pub struct BitFlags<T> { _p: core::marker::PhantomData<T> }
+#[verifier::external_body]
+#[verifier::reject_recursive_types(T)]
+pub struct ConstToken<T> { _p: core::marker::PhantomData<T> }
+impl<T> BitFlags<T> {
+    pub uninterp spec fn bits_view(&self) -> u32;
+    #[verifier::external_body]
+    pub const fn const_token() -> ConstToken<T> { unimplemented!() }
+    #[verifier::external_body]
+    pub fn from_bits_truncate_c(v: u32, t: ConstToken<T>) -> (r: Self) { unimplemented!() }
+}
+pub struct StunSecurityFeatures;
+pub struct B64Engine;
+pub struct B64Error;
+pub exec const BASE64_STANDARD: B64Engine ensures true { B64Engine }
+impl B64Engine {
+    // base64::Engine::decode_slice: writes the decoded bytes into `out`, returns their number (Err on bad input / short output)
+    #[verifier::external_body]
+    pub fn decode_slice(&self, input: &[u8], out: &mut [u8]) -> (r: Result<usize, B64Error>)
+        ensures final(out)@.len() == old(out)@.len(), r is Ok ==> r->Ok_0 <= old(out)@.len(),
+    { unimplemented!() }
+}
+#[verifier::external_body]
+pub fn vx_starts_with(s: &str, p: &str) -> (r: bool)
+    ensures r ==> s.spec_bytes().len() >= p.spec_bytes().len() && s.spec_bytes().subrange(0, p.spec_bytes().len() as int) == p.spec_bytes(),
+{ s.starts_with(p) }
+//@consts stun_rs :: mod attributes > mod stun > mod nonce_cookie
+proof fn lemma_cookie_header_len()
+    ensures NONCE_COOKIE_HEADER.spec_bytes().len() == 9,
+{
+    reveal_strlit("obMatJos2");
+    broadcast use vstd::utf8::group_utf8_lib;
+    broadcast use vstd::string::group_string_axioms;
+    assert(NONCE_COOKIE_HEADER.is_ascii());
+}
+impl Nonce {
+//@item stun_rs :: mod attributes > mod stun > mod nonce_cookie > impl Nonce > fn is_nonce_cookie
+//@tags C19 C03
+//@sub "self.as_str().starts_with(NONCE_COOKIE_HEADER)" => "vx_starts_with(self.as_str(), NONCE_COOKIE_HEADER)"
+//@sub "self.as_str().len()" => "vx_str_len(self.as_str())"
+//@sub "NONCE_COOKIE_HEADER.len()" => "vx_str_len(NONCE_COOKIE_HEADER)"
+//@head
+    proof { lemma_cookie_header_len(); }
+//@spec
+    ensures r ==> vstd::utf8::encode_utf8(self.0.0@).len() >= 13,
+//@end
+//@item stun_rs :: mod attributes > mod stun > mod nonce_cookie > impl Nonce > fn security_features
+//@tags C19 C03
+//@sub "NONCE_COOKIE_HEADER.len()" => "vx_str_len(NONCE_COOKIE_HEADER)" all
+//@sub "BitFlags::CONST_TOKEN" => "BitFlags::const_token()"
+//@head
+    proof { lemma_cookie_header_len(); }
+//@end
+}
